@@ -74,8 +74,12 @@ fn generate(seed: u64, tier: Tier, em: &mut Emitter) {
             }
         }
     }
+    // every barrier kind on either side of the join, several partitions per side
+    for (src, steps, parts) in join_side_barrier_cases(&mut rng, tier != Tier::Quick) {
+        emit_prog(em, &src, &steps, Mode::Par(parts), true, &["sweep", "join_side_barrier"]);
+    }
     let mut rng = seed_mix(seed, 0xC07_0002);
-    let count = if tier == Tier::Quick { 1100 } else { 8000 };
+    let count = if tier == Tier::Quick { 950 } else { 7000 };
     let mut made = 0;
     while made < count {
         let n = gen_len(&mut rng);
